@@ -15,6 +15,7 @@
 -/
 import Buidl.Drv.Proto
 import Buidl.Model.ECDSA
+import Buidl.Model.ECDSAMessage
 import Buidl.Spec.RFC6979
 import Buidl.Model.Hash.HMAC
 open Buidl Buidl.Proto Buidl.EC Buidl.ECDSA
@@ -60,6 +61,21 @@ def handle : List String → String
       match pt with
       | none => pure REJECT
       | some Q => pure (if verify Q z r s = some true then "1" else REJECT)
+  | ["signmsg", d, m] => optS do
+      let d ← parseNat d
+      let m ← parseBytes m
+      match signMessage Hash.hash256 Hash.hmacSha256 FUEL d m with
+      | .ok (r, s) => pure s!"{r} {s}"
+      | .error (.detK .outOfFuel) => pure "FUEL"
+      | .error _ => pure REJECT
+  | ["verifymsg", pt, m, r, s] => optS do
+      let pt ← parsePt pt
+      let m ← parseBytes m
+      let r ← parseNat r
+      let s ← parseNat s
+      match pt with
+      | none => pure REJECT
+      | some Q => pure (if verifyMessage Hash.hash256 Q m r s = some true then "1" else REJECT)
   | ["der", r, s] => optS do
       pure (orReject ((der (← parseNat r) (← parseNat s)).map fmtBytes))
   | ["parseder", b] => optS do
